@@ -561,11 +561,15 @@ async fn apply(f: Fault, e: &mut Env, rng: &mut Rng, rep: &mut Report) -> Held {
             // DURING it (the server has their request and no descriptor to dial with)
             let mut early: Vec<super::pipe::Pipe> = Vec::new();
             if f == SrvDescriptorExhaustion {
-                for _ in 0..12 {
-                    if let Ok(p) = super::pipe::Pipe::connect(e.d.transport, sp).await {
-                        early.push(p);
+                // (as many as the server takes: when all of them ask at once, every descriptor is held by a flow that wants one more)
+                let n = if e.d.transport == Transport::Quic { 12 } else { NOFILE as usize };
+                for _ in 0..n {
+                    match super::pipe::Pipe::connect_within(e.d.transport, sp, Duration::from_millis(1500)).await {
+                        Ok(p) => early.push(p),
+                        Err(_) => break,
                     }
                 }
+                rep.mon("clients_past_their_transport_handshake_before_the_shortage", early.len() as u64);
             }
             let mut v = Vec::new();
             // (the kernel queues about 128 connections the process has not accepted; a connect beyond that waits for
